@@ -34,7 +34,7 @@ def def_key(d, N, variants, rh):
     return hashlib.sha256(text.encode()).hexdigest()[:20]
 
 
-ST_VERSION = 10      # bump to invalidate cached per-definition results when the harness changes
+ST_VERSION = 12      # bump to invalidate cached per-definition results when the harness changes
 
 
 def work_def(args):
@@ -45,7 +45,12 @@ def work_def(args):
     t0 = time.time()
     res = {'idx': i, 'mismatches': [], 'inconclusive': None, 'stats': None, 'over_budget': False}
     try:
+        msg = d.oracle_selfcheck()
+        if msg:
+            raise Inconclusive('oracle self-check failed (machinery defect, no verdict): ' + msg)
         h = ST.StepHarness(prog, i, d, min(N, d.nmax) if d.nmax else N, fields=_G['fields'])
+        h.width_table = _G.get('width_table')
+        h.width_keys = [x[0] for x in (h.width_table or [])]
         h.ex.deadline = t0 + budget
         nseen = {}
         runs = []
@@ -74,7 +79,35 @@ def work_def(args):
                         'concrete': ST.concretize(h, m.model, m.detail.get('decisions', ())) if m.model is not None else None,
                         'expected': m.detail.get('expected'), 'ctor': m.detail.get('ctor'), 'post': bool(getattr(m, 'post', False)),
                     })
+        # definitions that are cheap at N get a deeper bound as well (first variant only)
+        deepN = None
+        if _G.get('prop') not in ('C14', 'C15') and not d.nmax and time.time() - t0 < 6 and not res['mismatches']:
+            deepN = N + 2
+            h2 = ST.StepHarness(prog, i, d, deepN, fields=_G['fields'])
+            h2.width_table = h.width_table
+            h2.width_keys = h.width_keys
+            h2.ex.deadline = time.time() + min(40, budget)
+            try:
+                for rho in range(len(d.rulesets)):
+                    for m in h2.run_step(rho):
+                        rk = (tuple(sorted(m.aspects)), ''.join(ch for ch in m.what if not ch.isdigit()))
+                        nseen[rk] = nseen.get(rk, 0) + 1
+                        if nseen[rk] > 3:
+                            continue
+                        res['mismatches'].append({
+                            'aspects': sorted(m.aspects), 'what': m.what, 'rho': rho, 'prepeek': False, 'done': False,
+                            'concrete': ST.concretize(h2, m.model, m.detail.get('decisions', ())) if m.model is not None else None,
+                            'expected': m.detail.get('expected'), 'ctor': None, 'post': bool(getattr(m, 'post', False)),
+                        })
+                h.stats['paths'] += h2.stats['paths']
+                h.ex.queries += h2.ex.queries
+                h.ex.solver_time += h2.ex.solver_time
+                for k, v in h2.stats['covers'].items():
+                    h.stats['covers'][k] = h.stats['covers'].get(k, 0) + v
+            except OverBudget:
+                deepN = None
         st = h.stats
+        st['deep_N'] = deepN
         st['queries'] = h.ex.queries
         st['solver_time'] = round(h.ex.solver_time, 3)
         st['cache_hits'] = h.ex.cache_hits
@@ -243,6 +276,7 @@ def run_lex(rep, prop, extra_coverage=None, budget_override=None):
             _G['defs'] = defs
             _G['fields'] = ST.lexer_fields(prog)
             R.BUILTINS.update(crate.builtin_ranges())
+            _G['width_table'] = sorted(crate.width_ranges())
             built = True
             if os.environ.get('VERIF_VERBOSE'):
                 print('  built harness crate (%d definitions, %d not expandable) in %.0fs' % (len(defs), len(crate.errors), time.time() - t0), file=sys.stderr)
@@ -279,6 +313,7 @@ def run_lex(rep, prop, extra_coverage=None, budget_override=None):
         nontrivial = 0
         samples = []
         other = {}
+        deep = 0
         over = []
         unobservable = []
         for i, d in enumerate(defs):
@@ -295,6 +330,8 @@ def run_lex(rep, prop, extra_coverage=None, budget_override=None):
                 if not r.get('stats'):
                     continue
             stt = r['stats']
+            if stt.get('deep_N'):
+                deep += 1
             for k in tot:
                 tot[k] += stt.get(k, 0)
             for k, v in stt['covers'].items():
@@ -350,7 +387,7 @@ def run_lex(rep, prop, extra_coverage=None, budget_override=None):
                     'A definition is non-trivial for this property when the vacuity witnesses the property needs were reached (%s)' % (len(defs), N, select.nontrivial_doc(prop)),
             'samples': samples,
             'states': tot['paths'], 'transitions': tot['queries'], 'traces_validated_against_impl': validated,
-            'witnesses': covers, 'bounds': {'N_remaining_chars': N, 'variants': [list(v) for v in variants]},
+            'witnesses': covers, 'bounds': {'N_remaining_chars': N, 'variants': [list(v) for v in variants], 'definitions_also_decided_at_N_plus_2': deep},
             'programs_not_expanded': not_expanded,
             'programs_over_time_budget_not_decided': over,
             'internal_state_differences_without_observable_consequence': unobservable[:20],
